@@ -476,5 +476,20 @@ def int_float_mix(e) -> bool:
     return int_float_mix(a) or int_float_mix(b)
 
 
+def answer_exact(ans, bits: int = 48) -> bool:
+    """every rational in a canonical answer is a dyadic of at most `bits` bits, so the real model's double
+    arithmetic (including the final stoichiometric sums, which the spec does not guard) was exact"""
+    if isinstance(ans, str):
+        try:
+            return is_dyadic_small(Fraction(ans), bits)
+        except (ValueError, ZeroDivisionError):
+            return True
+    if isinstance(ans, dict):
+        return all(answer_exact(v, bits) for v in ans.values())
+    if isinstance(ans, (list, tuple)):
+        return all(answer_exact(v, bits) for v in ans)
+    return True
+
+
 __all__ = [n for n in dir() if not n.startswith("_")]
 _ = rat_str
